@@ -37,8 +37,9 @@ def run_impl(case, cfg=None, cls=None):
                              'target': target_language})
             return simple_translate(msgid, domain=domain, mapping=mapping, context=context, target_language=target_language, default=default)
         config['translate'] = translate
+    body = bytes(case['src']) if case.get('bytes') else case['src']
     try:
-        t = (cls or PageTemplate)(case['src'], **config)
+        t = (cls or PageTemplate)(body, **config)
     except TemplateError as e:
         r = canon.canon_exc(e)
         line, col = e.token.location if hasattr(e.token, 'location') else (0, 0)
@@ -82,7 +83,7 @@ def parse_errors(text):
 def model_req(case, cfg=None, quirks=None, rx=None):
     c = dict(cfg or {})
     c.update(case.get('cfg', {}))
-    r = {'op': 'render', 'src': case['src'], 'vars': case['vars'], 'objs': case.get('objs', []), 'cfg': c,
+    r = {'op': 'renderb' if case.get('bytes') else 'render', 'src': case['src'], 'vars': case['vars'], 'objs': case.get('objs', []), 'cfg': c,
          'pyoracle': case.get('pyoracle', [])}
     if quirks:
         r['q'] = quirks
